@@ -70,6 +70,17 @@ def conditions(tier):
                              pre=['1 <= len(v) <= %d' % al, cpre.replace('s[0]', 'v[0]')], timeout=to,
                              name='attr[first=%s,len<=%d]' % (cname, al),
                              bounds='every string of 1..%d code points, first char class %s' % (al, cname)))
+    wb = ('the value at position %d of a 4-attribute list that is wrapped; the output is the individually quoted '
+          'values joined by white space')
+    for pos in (1, 2, 3):      # position 0: CrossHair does not exhaust the paths (string built from a symbolic head)
+        conds.append(ch.Cond('h_c20', 'wrapped_lossless', [('v', 'str')], pre=['len(v) == 0'], fixed={'pos': pos},
+                             timeout=to, name='wrapped[position=%d,empty]' % pos, bounds='v = "" as ' + wb % pos))
+        for cname, cpre in (classes if pos < 3 else [('any', 'True')]):
+            conds.append(ch.Cond('h_c20', 'wrapped_lossless', [('v', 'str')],
+                                 pre=['1 <= len(v) <= %d' % al, cpre.replace('s[0]', 'v[0]')], fixed={'pos': pos},
+                                 timeout=to, name='wrapped[position=%d,first=%s,len<=%d]' % (pos, cname, al),
+                                 bounds='every string of 1..%d code points, first char class %s, as ' % (al, cname)
+                                        + wb % pos))
     # (b) structure: value *lengths* are unbounded symbolic integers, value content is opaque
     sym = [('l0', 'int'), ('l1', 'int'), ('l2', 'int'), ('l3', 'int'),
            ('none0', 'bool'), ('none1', 'bool'), ('none2', 'bool'), ('none3', 'bool'),
@@ -97,6 +108,14 @@ def conditions(tier):
             name='stack[first-op=%d,len<=%d]' % (o0, nops),
             bounds='every sequence of 1..%d operations over {open-context, close, leaf, text leaf, '
                    'push/pop pair, raise Exception, raise BaseException}; output parsed by expat' % nops))
+    for when in (0, 1, 2):
+        conds.append(ch.Cond(
+            'h_c20', 'two_writers', [('o%d' % i, 'int') for i in range(0, 4)] + [('n', 'int')],
+            pre=['0 <= o%d <= 6' % i for i in range(0, 4)] + ['1 <= n <= 4'],
+            fixed={'when': when}, timeout=to,
+            name='two-writers[%s,len<=4]' % ('other open during', 'other closed before', 'other used after')[when],
+            bounds='every sequence of 1..4 operations on one writer while a second writer instance exists '
+                   '(its element open around them / closed before / written after); both documents checked'))
     return conds
 
 
